@@ -834,7 +834,7 @@ fn draw_obj(p: &mut Prng, types: &[Ty]) -> ObjSpec {
     if ty == Ty::Block {
         tx.max_blob = tx.max_blob.min(300);
     }
-    if ty == Ty::Script && p.chance(1, 200) {
+    if ty == Ty::Script && p.chance(1, 1200) {
         // a script at the very size limit of the decoders
         tx.max_blob = 4_000_000;
     }
